@@ -30,6 +30,7 @@ type world struct {
 	calls    []string
 	recovers int
 	raised   int // panics actually raised by user code
+	introspection bool // introspection enabled for the operation
 	onCall   func(n int) // called at the n-th resolver call (cancellation points)
 	gated    bool // resolver calls are schedule gates (C06/C13: completion orders are replayed natively)
 }
@@ -531,7 +532,7 @@ func runOpCtx(parent context.Context, maxPayloads int, w *world, doc *ast.QueryD
 		return gqlerror.Errorf("internal system error")
 	})
 	opCtx := &graphql.OperationContext{
-		RawQuery: "", Variables: vars, Doc: doc, Operation: op, DisableIntrospection: true,
+		RawQuery: "", Variables: vars, Doc: doc, Operation: op, DisableIntrospection: !w.introspection,
 		RecoverFunc:            func(ctx context.Context, err any) error { w.mu.Lock(); w.recovers++; w.mu.Unlock(); return gqlerror.Errorf("internal system error") },
 		ResolverMiddleware:     func(ctx context.Context, next graphql.Resolver) (any, error) { return next(ctx) },
 		RootResolverMiddleware: func(ctx context.Context, next graphql.RootResolver) graphql.Marshaler { return next(ctx) },
